@@ -455,19 +455,32 @@ def check_cfg_io(ctx, rep, rule=RULE + '.e'):
     helper = pf.nested.get('print_alternative')
     eps_written = None
     sep = None
+    class _R:       # a returned value together with the node to report
+        def __init__(self, value, node):
+            self.value, self.node = value, node
     if helper is not None:
         fx = ctx.facts(helper)
         for r in walk_no_nested(helper.node):
             if isinstance(r, ast.Return):
                 atoms = fx.guard_atoms(fx.cfg.n_of(r))
+                v = r.value
+                # conditional expression form:  X if a.symbols else 'eps'
+                if isinstance(v, ast.IfExp) and any(a[0] == 'truthy' and a[1].endswith('symbols') for a in atoms_of(v.test, True)):
+                    pos = [a for a in atoms_of(v.test, True) if a[0] == 'truthy' and a[1].endswith('symbols')][0][3]
+                    empty_branch, full_branch = (v.orelse, v.body) if pos else (v.body, v.orelse)
+                    eps_written = _R(empty_branch, r)
+                    if isinstance(full_branch, ast.Call) and isinstance(full_branch.func, ast.Attribute) and full_branch.func.attr == 'join':
+                        sep = const_str(full_branch.func.value)
+                    continue
                 if any(a[0] == 'truthy' and a[3] is False and a[1].endswith('symbols') for a in atoms):
-                    eps_written = r
+                    eps_written = _R(r.value, r)
                 elif isinstance(r.value, ast.Call) and isinstance(r.value.func, ast.Attribute) and r.value.func.attr == 'join':
                     sep = const_str(r.value.func.value)
     if eps_written is None:
         rep.undecided(rule, pf, 'def ' + pf.name, 'epsilon spelling not found')
     else:
         v = eps_written.value
+        eps_written = eps_written.node
         parser = ctx.prog.func('cfg_algorithms.SimpleCFGParser.parse_epsilon')
         # spellings the parser infers without a declaration: 'ε' if it occurs, else '_'
         inferred = {c.value for c in ast.walk(parser.node) if isinstance(c, ast.Constant) and isinstance(c.value, str) and c.value in ('ε', '_')}
@@ -611,7 +624,8 @@ def check_line_delimiters(ctx, rep, rule=RULE + '.g'):
         if c.func.attr == 'startswith' and c.args and isinstance(c.args[0], ast.Constant) and isinstance(c.args[0].value, str):
             d = c.args[0].value
             n += 1
-            first_word = isinstance(c.func.value, ast.Subscript) and isinstance(c.func.value.slice, ast.Constant) and c.func.value.slice.value == 0
+            recv = resolve_alias(f, c.func.value) if isinstance(c.func.value, ast.Name) else c.func.value
+            first_word = isinstance(recv, ast.Subscript) and isinstance(recv.slice, ast.Constant) and recv.slice.value == 0
             if not first_word:
                 rep.undecided(rule, f, c, 'comment test not on the first word')
                 continue
